@@ -43,7 +43,7 @@ check("C18", "model_checking",
 
 check("C01", "model_checking",
       "Bounded-exhaustive enumeration of messages (header fields over boundary classes incl. the full product in thorough, 17x17 query/body lengths to 64 KiB, 5 body-capacity relations hitting both into_wire_bytes paths, builder-made typed/complex/aligned bodies) through every emission route (to_vec, write_to, into_wire_bytes, write_message, write_message_streaming, typed/complex writers, write_message_async, short-write sinks, and the bytes received from Server, AsyncServer and the WebSocket server inline/off-reader) against an independent field-table encoder that is itself anchored on the interop fixtures; every parser/reader must return the original fields.",
-      "Payload contents use one pattern per length; client-side senders are covered by C04/C05. Fixture files anchor the oracle.",
+      "Payload contents use one pattern per length. Client-side emission: every request API of Client / AsyncClient / WebSocketClient x 3 paths x 4 query-format codes x 6 body-format codes x 5 bodies (none .. 70 000 B) is captured from the wire and compared with the oracle and across the three clients. Fixture files anchor the oracle.",
       "bounded-exhaustive input/configuration enumeration of the real encoders/parsers against an independent oracle",
       "DESIGN.md §5 C01", "mc")
 check("C02", "model_checking",
@@ -62,7 +62,7 @@ check("C07", "model_checking",
       "bounded-exhaustive input/configuration enumeration with differential and reference-model oracles",
       "DESIGN.md §5 C07", "mc")
 check("C10", "fault_enumeration",
-      "Three parts, no source hooks: (1) every in-process fault (producer failure after every byte, connection cut after/on every response, error to open, missing last, rejecting/tampered verifier, trailer longer than or equal to the stream, unpublishable destination) x 9 pullers x compression x destination absent/pre-existing against the real SVS engine; (2) the pulling process is SIGKILLed (strace inject) at every file-system syscall and at every receive of the recorded history; (3) for every prefix of the recorded write/fsync/rename history and every subset of unsynced writes dropped, a file-system model computes the destination: it must be the old or the complete new content.",
+      "Three parts, no source hooks: (1) every in-process fault (producer failure after every byte, connection cut after/on every response, error to open, missing last, rejecting/tampered verifier, trailer longer than or equal to the stream, unpublishable destination) x 9 pullers x compression x destination absent/pre-existing against the real SVS engine, plus fault-free pulls that start over the stale temp file a killed pull leaves (six length classes); (2) the pulling process is SIGKILLed (strace inject) at every file-system syscall and at every receive of the recorded history; (3) for every prefix of the recorded write/fsync/rename history and every subset of unsynced writes dropped, a file-system model computes the destination: it must be the old or the complete new content.",
       "POSIX rename atomicity; directory fsync not demanded; kill points are syscall entries; transport faults are frame-granular.",
       "exhaustive fault and crash-point enumeration (in-process faults, kill at every syscall, crash-state model over the traced history)",
       "DESIGN.md §5 C10", "mc")
@@ -77,7 +77,7 @@ check("C16", "model_checking",
       "explicit-state enumeration of event sequences replayed on the real server against a reference automaton",
       "DESIGN.md §5 C16", "mc")
 check("C17", "model_checking",
-      "Every (limit, total size in limit-2..limit+2 plus 48, limit/2, 2*limit, placement of the excess in query/body/both) case on each of ten outbound paths (inline and off-reader responses, handler-pushed notify, four registry broadcasts, proxy-forwarded response, WebSocket client call and notify) over in-memory streams on a paused clock; every binary message seen by the raw peer must be within the limit, unchanged when it fits, replaced/dropped+reported/refused locally otherwise, and the connection must serve a following echo.",
+      "Every (limit, total size in limit-2..limit+2 plus 48, limit/2, 2*limit, placement of the excess in query/body/both) case on each of thirteen outbound paths (inline and off-reader responses, the same two with handler-returned error responses, a relayed application-error response, handler-pushed notify, four registry broadcasts, proxy-forwarded response, WebSocket client call and notify) over in-memory streams on a paused clock; every binary message seen by the raw peer must be within the limit, unchanged when it fits, replaced/dropped+reported/refused locally otherwise, and the connection must serve a following echo.",
       "The writer's shutdown-drain call site of the guard is not scripted.",
       "bounded-exhaustive input/configuration enumeration against running endpoints",
       "DESIGN.md §5 C17", "mc")
